@@ -15,6 +15,7 @@ mod rng;
 mod scansim;
 mod seams;
 mod sm;
+mod snapsim;
 mod smsim;
 mod store;
 mod watchers;
@@ -68,6 +69,10 @@ fn main() {
         "scansim" => {
             let seed: u64 = kv.get("seed").and_then(|s| s.parse().ok()).unwrap_or(1);
             std::process::exit(scansim::run_cli(seed, &kv));
+        }
+        "snapsim" => {
+            let seed: u64 = kv.get("seed").and_then(|s| s.parse().ok()).unwrap_or(1);
+            std::process::exit(snapsim::run_cli(seed, &kv));
         }
         "smsim-child" => std::process::exit(smsim::child_main(&kv)),
         _ => {
